@@ -196,7 +196,9 @@ def form_kind(f):
 
 # forms outside the claim (N = 0, implicit `*`, the `@^` parent modifier): model correspondence only
 TIE_ONLY = ['a*0', 'x-y.c$*0', '(p+q.c$$)*0', 'p*2>q.x$@^*3', 'p*2>q*2>b.x$@^^', 'p$@^*2', 'p*2>q.x$@^-*3', 'p*2>q.x$$$@^-5*3',
-            'p*3>(q.x$@^*2)', 'p*', 'p*>q.c$', 'p*0>q*0', '(p*0)*2', 'p.c$@-*0', 'p*2>q.x$@^^^7*2', 'p*01', 'p*007>q.c$$']
+            'p*3>(q.x$@^*2)', 'p*', 'p*>q.c$', 'p*0>q*0', '(p*0)*2', 'p.c$@-*0', 'p*2>q.x$@^^^7*2', 'p*01', 'p*007>q.c$$',
+            'p*2>q*2>b.x$@^*2', 'p*2>q*3>b*2>i.x$@^^', 'p*2>(q*2>b.x$$@^-3*2)', 'p*3>q*2>b.x$@^^^*2', 'p*2>q*2>b*2>i$@^*2>u.c$@^^',
+            '(p*2>q*2>b.x$@^*3)*2', 'p*2>q*2>b[t=$@^ w=$$@^^-2]{$@^4}*2']
 
 
 # ---------------------------------------------------------------- tokens of numbering forms
